@@ -54,7 +54,10 @@ type Plan struct {
 	Concurrent bool   `json:"concurrent"`
 	Strategy   int    `json:"strategy"`
 	EarlyProbe bool   `json:"early_probe"` // probes before the stream exists are allowed
-	Ops        []Op   `json:"ops"`
+	// Chain: the stream's context derives from the context an earlier intercepted
+	// unary call handed to its invoker (an application tying calls together)
+	Chain bool `json:"chain,omitempty"`
+	Ops   []Op `json:"ops"`
 }
 
 //go:norace
@@ -72,6 +75,7 @@ func Generate(r *rand.Rand, profile string, concurrent bool, avoid map[string]bo
 		p.Fails = 1 + r.IntN(2)
 	}
 	p.BlockFirst = r.IntN(3) == 0
+	p.Chain = r.IntN(4) == 0
 	if r.IntN(3) == 0 {
 		p.Deadline = []int{5, 20, 100}[r.IntN(3)]
 	}
@@ -111,7 +115,7 @@ func Generate(r *rand.Rand, profile string, concurrent bool, avoid map[string]bo
 			o.K = OpUnblock
 		case x < 96:
 			o.K = OpUnary
-			o.A = r.IntN(4)
+			o.A = r.IntN(8)
 		default:
 			o.K = OpSteps
 			o.A = 1 + r.IntN(10)
@@ -190,6 +194,8 @@ type sim struct {
 	attempts        int
 	firstMsg        interface{}
 	createErr       []error
+	lastCtx         context.Context // context an interceptor handed to its invoker/streamer last
+	sending         []sendRec
 	unblock         kern.Waiter
 	blocked         bool
 	reached         []rec
@@ -254,6 +260,22 @@ func (s *sim) streamer(ctx context.Context, desc *grpc.StreamDesc, cc *grpc.Clie
 	if ctx.Value(ctxKey("caller")) != "value" {
 		s.k.Logf("streamer: caller context value lost")
 		s.createErr = kern.Push(s.createErr, errors.New("ctx-lost"))
+	}
+	s.lastCtx = ctx
+	if grpcgcp.VerifPeekSupported {
+		// the creating SendMsg runs the streamer on its own goroutine: the message
+		// that task is sending is the one the picker must see
+		var want interface{}
+		me := s.k.Me()
+		for _, sm := range s.sending {
+			if sm.t == me {
+				want = sm.m
+			}
+		}
+		rq, _, ok := grpcgcp.VerifPeekGCPContext(ctx)
+		if !ok || rq != want {
+			s.createErr = kern.Push(s.createErr, errors.New("first-message"))
+		}
 	}
 	if s.plan.BlockFirst && n == 1 {
 		s.blocked = true
@@ -334,6 +356,19 @@ func (s *sim) run(src *simkit.Source, logOn bool) {
 	s.opIdx = -1
 	s.unblock.Note = "stream creation blocked"
 	base := context.WithValue(context.Background(), ctxKey("caller"), "value")
+	if s.plan.Chain {
+		// an earlier intercepted unary call; the stream's context derives from the
+		// context that call's invoker saw
+		s.unary(0)
+		if s.stop {
+			s.finish()
+			return
+		}
+		if s.lastCtx != nil {
+			base = context.WithValue(context.WithoutCancel(s.lastCtx), ctxKey("caller"), "value")
+			s.res.Count("fault:ctx_derived_from_earlier_call", 1)
+		}
+	}
 	if s.plan.Deadline > 0 {
 		d := time.Duration(s.plan.Deadline) * time.Millisecond
 		s.ctx, s.cancel = context.WithTimeout(base, d)
@@ -366,6 +401,11 @@ func (s *sim) run(src *simkit.Source, logOn bool) {
 
 type msg struct{ N int }
 
+type sendRec struct {
+	t *kern.Task
+	m interface{}
+}
+
 //go:norace
 func (s *sim) exec(o Op) {
 	switch o.K {
@@ -373,7 +413,10 @@ func (s *sim) exec(o Op) {
 		s.sendSeq++
 		m := &msg{N: s.sendSeq}
 		s.res.Count("op:send", 1)
-		s.op("send", o.Task%2, m, func() error { return s.cs.SendMsg(m) })
+		s.op("send", o.Task%2, m, func() error {
+			s.sending = kern.Push(s.sending, sendRec{t: s.k.Me(), m: m})
+			return s.cs.SendMsg(m)
+		})
 		s.settle(o)
 	case OpRecv:
 		m := &msg{N: -s.nextOp}
@@ -453,8 +496,14 @@ func (s *sim) exec(o Op) {
 //go:norace
 func (s *sim) unary(variant int) {
 	type key struct{}
-	ctx := context.WithValue(context.Background(), key{}, 42)
+	parent := context.Background()
+	if variant >= 4 && s.lastCtx != nil {
+		parent = context.WithoutCancel(s.lastCtx) // derived from the stream's (or an earlier call's) context
+		s.res.Count("fault:ctx_derived_from_earlier_call", 1)
+	}
+	ctx := context.WithValue(parent, key{}, 42)
 	req, reply := &msg{N: 1}, &msg{N: 2}
+	peek := ""
 	wantErr := error(nil)
 	if variant%2 == 1 {
 		wantErr = errors.New("invoker error")
@@ -475,6 +524,16 @@ func (s *sim) unary(variant int) {
 				got.called++
 				got.method, got.req, got.reply, got.opts, got.cc = method, rq, rp, opts, cc
 				got.val = c.Value(key{})
+				s.lastCtx = c
+				if grpcgcp.VerifPeekSupported {
+					rq, rp, ok := grpcgcp.VerifPeekGCPContext(c)
+					switch {
+					case !ok:
+						peek = "no picker context"
+					case rq != interface{}(req) || rp != interface{}(reply):
+						peek = "the picker context carries other request/reply objects"
+					}
+				}
 				return wantErr
 			}, opt)
 		return err
@@ -490,6 +549,8 @@ func (s *sim) unary(variant int) {
 		return
 	}
 	switch {
+	case peek != "":
+		s.vio("C12", "unary-picker-context-wrong", map[bool]string{true: "chained-ctx", false: ""}[variant >= 4], "GCPUnaryClientInterceptor: "+peek+" (the picker must find this call's request and reply objects)")
 	case got.called != 1:
 		s.vio("C12", "unary-invoker-calls", "", fmt.Sprintf("invoker called %d times", got.called))
 	case got.method != "/svc/Unary" || got.req != interface{}(req) || got.reply != interface{}(reply) || got.cc != nil:
@@ -531,6 +592,10 @@ func (s *sim) check() {
 	for _, e := range s.createErr {
 		if e.Error() == "ctx-lost" {
 			s.vio("C12", "stream-ctx-values-lost", "", "streamer did not see the caller's context values")
+			return
+		}
+		if e.Error() == "first-message" {
+			s.vio("C12", "first-message-not-visible-to-picker", map[bool]string{true: "chained-ctx", false: ""}[s.plan.Chain], "the context handed to the streamer does not carry the message of the SendMsg that creates the stream (what the picker reads its affinity key from)")
 			return
 		}
 	}
